@@ -4,6 +4,7 @@ CONSTANTS
   Comp <- c_Comp
   Owner <- c_Owner
   Initial <- c_Initial
+  InitialColl <- c_None
   LinkMenu <- c_MenuSmall
   MaxDelay = 1
   MaxLinks = 3
